@@ -44,21 +44,34 @@ theorem file_openFile (disk : List (Str × Store V)) (fn fn' : Str) (h : fn ≠ 
   | some s => rfl
   | none => exact AL.get?_set_ne _ _ _ _ h
 
+theorem readValue_some (vo : VOps V) (disk : List (Str × Store V)) (fn : Str) (k : Key) (vt : V × V)
+    (h : AL.get? (AL.getD disk fn []) k = some vt) : readValue vo disk fn k = (vt, disk) := by
+  unfold readValue; simp only [h]
+
+theorem readValue_none (vo : VOps V) (disk : List (Str × Store V)) (fn : Str) (k : Key)
+    (h : AL.get? (AL.getD disk fn []) k = none) :
+    readValue vo disk fn k
+      = ((vo.zero, vo.zero), AL.set disk fn (AL.set (AL.getD disk fn []) k (vo.zero, vo.zero))) := by
+  unfold readValue; simp only [h]
+
 theorem readValue_fst (vo : VOps V) (disk : List (Str × Store V)) (fn : Str) (k : Key) :
     (readValue vo disk fn k).1 = cellVal vo disk fn k := by
-  unfold readValue cellVal cellGet
-  cases h : AL.get? (AL.getD disk fn []) k <;> simp
+  unfold cellVal cellGet
+  cases h : AL.get? (AL.getD disk fn []) k with
+  | some vt => rw [readValue_some vo disk fn k vt h]; rfl
+  | none => rw [readValue_none vo disk fn k h]; rfl
 
 theorem cellGet_readValue (vo : VOps V) (disk : List (Str × Store V)) (fn fn' : Str) (k0 k : Key) :
     cellGet (readValue vo disk fn k0).2 fn' k
       = if fn = fn' ∧ k0 = k ∧ cellGet disk fn k0 = none then some (vo.zero, vo.zero) else cellGet disk fn' k := by
-  unfold readValue
   cases h : AL.get? (AL.getD disk fn []) k0 with
   | some vt =>
     have : cellGet disk fn k0 = some vt := h
+    rw [readValue_some vo disk fn k0 vt h]
     simp [this]
   | none =>
     have hn : cellGet disk fn k0 = none := h
+    rw [readValue_none vo disk fn k0 h]
     simp only [cellGet_set, hn, and_true]
     by_cases e : fn = fn'
     · subst e
@@ -68,10 +81,9 @@ theorem cellGet_readValue (vo : VOps V) (disk : List (Str × Store V)) (fn fn' :
 
 theorem file_readValue (vo : VOps V) (disk : List (Str × Store V)) (fn fn' : Str) (k : Key) (h : fn ≠ fn') :
     AL.get? (readValue vo disk fn k).2 fn' = AL.get? disk fn' := by
-  unfold readValue
-  cases AL.get? (AL.getD disk fn []) k with
-  | some vt => rfl
-  | none => exact AL.get?_set_ne _ _ _ _ h
+  cases hh : AL.get? (AL.getD disk fn []) k with
+  | some vt => rw [readValue_some vo disk fn k vt hh]
+  | none => rw [readValue_none vo disk fn k hh]; exact AL.get?_set_ne _ _ _ _ h
 
 theorem cellVal_readValue (vo : VOps V) (disk : List (Str × Store V)) (fn fn' : Str) (k0 k : Key) :
     cellVal vo (readValue vo disk fn k0).2 fn' k = cellVal vo disk fn' k := by
@@ -167,40 +179,61 @@ theorem isSome_readValue (vo : VOps V) (disk : List (Str × Store V)) (fn fn' : 
   · rfl
   · exact h
 
+theorem reset_some (vo : VOps V) (pid : Str) (files : List (Str × Str)) (disk : List (Str × Store V)) (p : Params)
+    (fn0 : Str) (hg : AL.get? files (filePrefix p) = some fn0) :
+    reset vo pid files disk p
+      = (⟨p, (readValue vo disk fn0 (mmapKey p)).1.1, (readValue vo disk fn0 (mmapKey p)).1.2, fn0, mmapKey p⟩,
+          files, (readValue vo disk fn0 (mmapKey p)).2) := by
+  unfold reset
+  simp only [hg, AL.getD_eq, Option.getD_some]
+
+theorem reset_none (vo : VOps V) (pid : Str) (files : List (Str × Str)) (disk : List (Str × Store V)) (p : Params)
+    (hg : AL.get? files (filePrefix p) = none) :
+    reset vo pid files disk p
+      = (⟨p, (readValue vo (openFile disk (fileName (filePrefix p) pid)) (fileName (filePrefix p) pid) (mmapKey p)).1.1,
+            (readValue vo (openFile disk (fileName (filePrefix p) pid)) (fileName (filePrefix p) pid) (mmapKey p)).1.2,
+            fileName (filePrefix p) pid, mmapKey p⟩,
+          AL.set files (filePrefix p) (fileName (filePrefix p) pid),
+          (readValue vo (openFile disk (fileName (filePrefix p) pid)) (fileName (filePrefix p) pid) (mmapKey p)).2) := by
+  unfold reset
+  simp only [hg, AL.getD_eq, Option.getD_some, AL.get?_set_self]
+
 theorem reset_post (vo : VOps V) (pid : Str) (files : List (Str × Str)) (disk : List (Str × Store V)) (p : Params)
     (hf : FilesOK pid files) : ResetPost vo pid disk p (reset vo pid files disk p) := by
-  unfold reset
   cases hg : AL.get? files (filePrefix p) with
   | some fn0 =>
     have hfn : fn0 = fileName (filePrefix p) pid := hf _ _ hg
-    simp only [AL.getD_eq, hg, Option.getD_some]
+    rw [reset_some vo pid files disk p fn0 hg]
     subst hfn
     refine ⟨rfl, rfl, rfl, hf, ?_, ?_, ?_, ?_, ?_⟩
     · intro fn k; exact cellVal_readValue vo disk _ fn _ k
     · intro fn k h; exact isSome_readValue vo disk _ fn _ k h
-    · simp only [readValue_fst]; exact cellGet_readValue_self vo disk _ _
-    · simp only [readValue_fst]
+    · simp only [Prod.eta, readValue_fst]; exact cellGet_readValue_self vo disk _ _
+    · simp only [Prod.eta, readValue_fst]
     · intro fn hne; exact file_readValue vo disk _ fn _ (Ne.symm hne)
   | none =>
-    simp only [AL.getD_eq, AL.get?_set_self, Option.getD_some]
+    rw [reset_none vo pid files disk p hg]
     refine ⟨rfl, rfl, rfl, ?_, ?_, ?_, ?_, ?_, ?_⟩
     · intro q fn h
+      simp only at h
       rw [AL.get?_set] at h
       split at h
       · next e => subst e; exact (Option.some.inj h).symm
       · exact hf q fn h
     · intro fn k
+      simp only
       rw [cellVal_readValue]
       unfold cellVal
       rw [cellGet_openFile]
     · intro fn k h
       apply isSome_readValue
       rw [cellGet_openFile]; exact h
-    · simp only [readValue_fst]; exact cellGet_readValue_self vo _ _ _
-    · simp only [readValue_fst]
+    · simp only [Prod.eta, readValue_fst]; exact cellGet_readValue_self vo _ _ _
+    · simp only [Prod.eta, readValue_fst]
       unfold cellVal
       rw [cellGet_openFile]
     · intro fn hne
+      simp only
       rw [file_readValue vo _ _ fn _ (Ne.symm hne), file_openFile _ _ fn (Ne.symm hne)]
 
 /-! ### `for value in values: value.__reset()` -/
@@ -220,7 +253,7 @@ theorem resetAll_post (vo : VOps V) (pid : Str) (vs : List (ValueObj V)) (files 
     ResetAllPost vo pid disk vs (resetAll vo pid vs files disk) := by
   induction vs generalizing files disk with
   | nil =>
-    exact ⟨rfl, fun v hv => by cases hv, hf, fun _ _ => rfl, fun _ _ h => h, fun v hv => by cases hv, fun _ _ => rfl⟩
+    exact ⟨rfl, (fun v hv => by cases hv), hf, (fun _ _ => rfl), (fun _ _ h => h), (fun v hv => by cases hv), (fun _ _ => rfl)⟩
   | cons v r ih =>
     have h1 := reset_post vo pid files disk v.params hf
     have h2 := ih (reset vo pid files disk v.params).2.1 (reset vo pid files disk v.params).2.2 h1.files
@@ -261,7 +294,7 @@ def Cached (vo : VOps V) (st : St V) : Prop :=
   ∀ v ∈ st.values, cellVal vo st.disk v.file v.key = (v.value, v.ts)
 
 theorem bound_init (actual : Str) : Bound (St.init (V := V) actual) :=
-  ⟨filesOK_nil _, fun v hv => by cases hv, fun v hv => by cases hv⟩
+  ⟨filesOK_nil _, (fun v hv => by cases hv), (fun v hv => by cases hv)⟩
 
 theorem cached_init (vo : VOps V) (actual : Str) : Cached vo (St.init (V := V) actual) := fun v hv => by cases hv
 
